@@ -311,6 +311,195 @@ class Thread:
     def is_alive(self):
         return self._st is not None and self._st.state != DONE
 
+    @property
+    def native_id(self):
+        return self.ident
+
+    def getName(self):
+        return self.name
+
+    def setName(self, name):
+        self.name = name
+
+    def isDaemon(self):
+        return self.daemon
+
+    def setDaemon(self, daemonic):
+        self.daemon = bool(daemonic)
+
+
+class Semaphore:
+    """As CPython's (pure Python there, too): a counter under a Condition."""
+
+    def __init__(self, value=1):
+        if value < 0:
+            raise ValueError("semaphore initial value must be >= 0")
+        self._cond = Condition(Lock())
+        self._value = value
+
+    def acquire(self, blocking=True, timeout=None):
+        if not blocking and timeout is not None:
+            raise ValueError("can't specify timeout for non-blocking acquire")
+        rc = False
+        endtime = None
+        with self._cond:
+            while self._value == 0:
+                if not blocking:
+                    break
+                if timeout is not None:
+                    if endtime is None:
+                        endtime = _sim().now + timeout
+                    else:
+                        timeout = endtime - _sim().now
+                        if timeout <= 0:
+                            break
+                self._cond.wait(timeout)
+            else:
+                self._value -= 1
+                rc = True
+        return rc
+
+    __enter__ = acquire
+
+    def release(self, n=1):
+        if n < 1:
+            raise ValueError("n must be one or more")
+        with self._cond:
+            self._value += n
+            self._cond.notify(n)
+
+    def __exit__(self, t, v, tb):
+        self.release()
+
+
+class BoundedSemaphore(Semaphore):
+    def __init__(self, value=1):
+        super().__init__(value)
+        self._initial_value = value
+
+    def release(self, n=1):
+        if n < 1:
+            raise ValueError("n must be one or more")
+        with self._cond:
+            if self._value + n > self._initial_value:
+                raise ValueError("Semaphore released too many times")
+            self._value += n
+            self._cond.notify(n)
+
+
+class BrokenBarrierError(RuntimeError):
+    pass
+
+
+class Barrier:
+    """As CPython's threading.Barrier (same state machine), on the simulated Condition."""
+
+    def __init__(self, parties, action=None, timeout=None):
+        self._cond = Condition(Lock())
+        self._action = action
+        self._timeout = timeout
+        self._parties = parties
+        self._state = 0   # 0 filling, 1 draining, -1 resetting, -2 broken
+        self._count = 0
+
+    def wait(self, timeout=None):
+        if timeout is None:
+            timeout = self._timeout
+        with self._cond:
+            self._enter()
+            index = self._count
+            self._count += 1
+            try:
+                if index + 1 == self._parties:
+                    self._release()
+                else:
+                    self._wait(timeout)
+                return index
+            finally:
+                self._count -= 1
+                self._exit()
+
+    def _enter(self):
+        while self._state in (-1, 1):
+            self._cond.wait()
+        if self._state < 0:
+            raise BrokenBarrierError
+        assert self._state == 0
+
+    def _release(self):
+        try:
+            if self._action:
+                self._action()
+            self._state = 1
+            self._cond.notify_all()
+        except BaseException:
+            self._break()
+            raise
+
+    def _wait(self, timeout):
+        if not self._cond.wait_for(lambda: self._state != 0, timeout):
+            self._break()
+            raise BrokenBarrierError
+        if self._state < 0:
+            raise BrokenBarrierError
+        assert self._state == 1
+
+    def _exit(self):
+        if self._count == 0:
+            if self._state in (-1, 1):
+                self._state = 0
+                self._cond.notify_all()
+
+    def reset(self):
+        with self._cond:
+            if self._count > 0:
+                if self._state == 0:
+                    self._state = -1
+                elif self._state == -2:
+                    self._state = -1
+            else:
+                self._state = 0
+            self._cond.notify_all()
+
+    def abort(self):
+        with self._cond:
+            self._break()
+
+    def _break(self):
+        self._state = -2
+        self._cond.notify_all()
+
+    @property
+    def parties(self):
+        return self._parties
+
+    @property
+    def n_waiting(self):
+        return self._count if self._state == 0 else 0
+
+    @property
+    def broken(self):
+        return self._state == -2
+
+
+class Timer(Thread):
+    def __init__(self, interval, function, args=None, kwargs=None):
+        Thread.__init__(self)
+        self.interval = interval
+        self.function = function
+        self.args = args if args is not None else []
+        self.kwargs = kwargs if kwargs is not None else {}
+        self.finished = Event()
+
+    def cancel(self):
+        self.finished.set()
+
+    def run(self):
+        self.finished.wait(self.interval)
+        if not self.finished.is_set():
+            self.function(*self.args, **self.kwargs)
+        self.finished.set()
+
 
 class ThreadingShim:
     """Stands in for the `threading` module inside shimmed modules."""
@@ -320,7 +509,25 @@ class ThreadingShim:
     Condition = Condition
     Event = Event
     Thread = Thread
+    Semaphore = Semaphore
+    BoundedSemaphore = BoundedSemaphore
+    Barrier = Barrier
+    BrokenBarrierError = BrokenBarrierError
+    Timer = Timer
+    local = _real_threading.local          # simulated threads are real threads: thread-local storage just works
     TIMEOUT_MAX = _real_threading.TIMEOUT_MAX
+
+    def __getattr__(self, name):
+        # constants, exception types, hooks: whatever is not a synchronisation primitive comes from the real module
+        return getattr(_real_threading, name)
+
+    @staticmethod
+    def main_thread():
+        return _sim().threads[0]
+
+    @staticmethod
+    def enumerate():
+        return [t.handle if t.handle is not None else t for t in _sim().threads if t.state != DONE]
 
     @staticmethod
     def current_thread():
